@@ -25,15 +25,23 @@ fn optimization_pass(lines: Vec<Line>) -> Vec<Line> {
     while index < lines.len() {
         let curr = &lines[index];
 
+        #[cfg(abra_verif)]
+        let verif_mark = ret.len();
         if peephole3_helper(&lines, index, &mut ret) {
+            #[cfg(abra_verif)]
+            crate::vm::verif::on_rewrite(&lines[index..index + 3], &ret[verif_mark..]);
             index += 3;
             continue;
         }
         if peephole2_helper(&lines, index, &mut ret) {
+            #[cfg(abra_verif)]
+            crate::vm::verif::on_rewrite(&lines[index..index + 2], &ret[verif_mark..]);
             index += 2;
             continue;
         }
         if peephole1_helper(&lines, index, &mut ret) {
+            #[cfg(abra_verif)]
+            crate::vm::verif::on_rewrite(&lines[index..index + 1], &ret[verif_mark..]);
             index += 1;
             continue;
         }
